@@ -15,13 +15,15 @@ RULE = (
     'surrounding whitespace incl. \\n and exotic spaces, country/format prefixes added/stripped/lower-cased/'
     'followed by newline, every ASCII separator and whitespace character inserted at every position, every key '
     'of stdnum.util._char_map inserted at every position and substituted for its ASCII equivalent, whole-number '
-    'look-alike respelling, separators/whitespace REPLACING a character (optionally with one re-randomised digit), second-order decorations of accepted presentations, common.mutations, every digit/A/X inserted or substituted and every character deleted at every position of the first numbers) x every '
+    'look-alike respelling, separators/whitespace REPLACING a character (optionally with one re-randomised digit), second-order decorations of accepted presentations, table-driven inputs (every member of the tables of the module - court names and aliases, codes, letters - put in the place of the table member found in a valid number), self-similar inputs (a substring of the number copied in any case over / into another part of it), common.mutations, every digit/A/X inserted or substituted and every character deleted at every position of the first numbers) x every '
     'keyword option set of validate.  For each accepted x (v = validate(x, **o) returned a str): '
     'validate(v, **o) must return exactly v, and v == v.strip().  ' + G.NONTRIVIAL_RULE)
 
 PARAMS = {
-    'quick': dict(full=0, dense=5, light=60, mutations=3, double=8, sepsubst=3, sepsubst_rand=2, near=3),
-    'thorough': dict(full=14, dense=50, light=400, mutations=12, double=80, sepsubst=20, sepsubst_rand=6, near=30),
+    'quick': dict(full=0, dense=5, light=60, mutations=3, double=8, sepsubst=3, sepsubst_rand=2, near=3,
+                  table=2, table_limit=500, selfsim=2, selfsim_limit=150),
+    'thorough': dict(full=14, dense=50, light=400, mutations=12, double=80, sepsubst=20, sepsubst_rand=6, near=30,
+                     table=12, table_limit=6000, selfsim=20, selfsim_limit=1500),
 }
 EXPECT = 'validate(v, **o) == v and v == v.strip() for v = validate(x, **o)'
 
@@ -144,6 +146,21 @@ def _worker(task):
                         j = rng.choice(digits)
                         if j != i:
                             check('sepsubst', y[:j] + rng.choice('0123456789') + y[j + 1:], {})
+    # table-driven inputs: one per row of the tables of the module; self-similar inputs
+    for idx, v in enumerate(valid):
+        gidx = idx * nparts + part
+        if gidx >= max(P['table'], P['selfsim']):
+            break
+        if gidx < P['table']:
+            for lab, y in G.table_variants(mod, v, rng, P['table_limit']):
+                for kw in opts:
+                    check('table' if not kw else 'option:' + ','.join(sorted(kw)), y, kw)
+        if gidx < P['selfsim']:
+            for lab, y in G.self_similar(v, rng, P['selfsim_limit']):
+                o = check('self-similar', y, {})
+                if o is not None and o[0] == 'ok':
+                    for z in G.case_presentations(y):
+                        check('self-similar', z, {})
     # second order: decorate accepted presentations again
     if accepted_pool:
         for _ in range(P['double'] // nparts + 1):
